@@ -1,6 +1,6 @@
 (* C07 — non-vacuity examples *)
 From Coq Require Import ZArith List Lia Permutation.
-From FV Require Import Lib.RustInt C05.Model C05.Proofs C05.Examples C07.Proofs C07.Equiv C07.PromoteModel C07.Promote.
+From FV Require Import Lib.RustInt C05.Model C05.Proofs C05.Examples C07.Proofs C07.Equiv C07.PromoteModel C07.Promote C07.IdGen C07.IdCounter.
 Import ListNotations.
 Open Scope Z_scope.
 
@@ -71,4 +71,17 @@ Proof.
   repeat split; try (vm_compute; reflexivity).
   - apply Permutation_rev.
   - cbn. repeat constructor; cbn; intuition lia.
+Qed.
+
+(* ---- round 4: id counter ---- *)
+(* at the draw where a 32-bit counter would wrap the real (generated) widths keep ids in creation order; hypotheses of
+   c07_process_history_independent are satisfiable *)
+Example c07_id_counter_example :
+  id_of_draw (2 ^ 32 - 1) < id_of_draw (2 ^ 32) /\ id_of_draw (2 ^ 32) = 2 ^ 32 /\
+  id_of_draw_bits 32 (2 ^ 32) < id_of_draw_bits 32 (2 ^ 32 - 1) /\
+  incr_nat [3; 4; 100; 700]%nat /\ (forall i, In i [3; 4; 100; 700]%nat -> Z.of_nat i < feasible_bound).
+Proof.
+  repeat split; try (vm_compute; reflexivity); try (cbn; lia).
+  intros i Hi. cbn [In] in Hi. unfold feasible_bound. assert (2 ^ 62 = 4611686018427387904) by reflexivity.
+  destruct Hi as [<-|[<-|[<-|[<-|[]]]]]; rewrite H; reflexivity.
 Qed.
